@@ -14,6 +14,15 @@ Import ListNotations.
    either raises, or does not list the backup, or lists it with exactly the
    record of the requested files and every recorded file present in the backup
    with the bytes the data file had when create_backup started.
+   NOTE on the outcomes: the property text names two ("does not list" / "lists it
+   complete"); the code has a THIRD one, which this theorem counts as "does not
+   list": the constructor raises.  C18_crash_midway_raises below proves that this
+   is exactly what happens at every crash point between the first directory
+   creation and the completed record (half-made directory => HedFileError, torn
+   record => ValueError).  Consequence (behaviour of the code, not excluded by the
+   property): while the half-made backups/<name> exists NO BackupManager can be
+   constructed for that backups directory, so every OTHER backup in it is
+   unavailable too until the directory is removed by hand.
    Hypotheses: nothing exists at or below the backup's directory beforehand
    (a fresh manager on a parent-closed tree that does not list the name), the
    selected files are not inside that directory, file-name components are
@@ -34,6 +43,23 @@ Theorem C18_crash_consistent :
                        (backup_root b ++ key_path key) = Some c.
 Proof. exact crash_consistent_lemma. Qed.
 Print Assumptions C18_crash_consistent.
+
+(* The third outcome made precise: at every crash point after the first directory
+   creation at which the record is not yet complete, the constructor RAISES (for a
+   backup name resolving to one valid directory entry [n]). *)
+Theorem C18_crash_midway_raises :
+  forall (b n : name) (files : list path) (ts : str) (f0 : fs),
+    key_path b = [n] -> key_path n = [n] ->
+    (forall p, under (backup_dir b) p = true -> lookup f0 p = None) ->
+    Forall (fun f => under (backup_dir b) f = false) files ->
+    Forall valid_file files -> json_ok ts ->
+    forall (i : nat) (k : option nat),
+      let fc := crash f0 (create_effects b files ts) i k in
+      1 <= i ->
+      lookup fc (backup_lock b) <> Some (File (dump (keys_of files []) ts)) ->
+      exists e, get_backups fc = Exn e.
+Proof. exact crash_midway_raises. Qed.
+Print Assumptions C18_crash_midway_raises.
 
 (* The record file is the linch-pin: it parses back to the recorded keys, and
    NO proper prefix of it parses (so a torn record always makes the constructor
@@ -73,7 +99,8 @@ Example C18_dot_directories :
   length (keys_of ex_twins []) = 3.
 Proof. exact ex_dot_keys. Qed.
 
-(* Restore is byte-identical: after a successful create_backup, ANY sequence of
+(* Restore is byte-identical (conditional form; C18_restore_total below discharges the
+   premise "the restore completes"): after a successful create_backup, ANY sequence of
    writes, deletions and directory creations outside the backup's directory,
    followed by a restore that completes, returns every backed-up file to the
    content it had at backup time. *)
@@ -89,6 +116,54 @@ Theorem C18_restore_identical :
     forall f, In f files -> exists c, read f0 f = Some c /\ read f3 f = Some c.
 Proof. exact restore_identical_lemma. Qed.
 Print Assumptions C18_restore_identical.
+
+(* C18_restore_identical with its premise ESTABLISHED: after a completed
+   create_backup of a non-empty selection, any sequence of edits of the data tree
+   that stays outside the backup and is [harmless] -- anything except writing a
+   FILE where an ancestor directory of a backed-up file must be, or making a
+   DIRECTORY where a backed-up file must be (deleting, overwriting, truncating,
+   re-creating the backed-up files, adding other files and directories are all
+   allowed) -- the full restore DOES complete and every file is back to its
+   original bytes.  [anc_ok f0 files]: no ancestor path of a selected file is a
+   file (true of every real tree). *)
+Theorem C18_restore_total :
+  forall (fixed : bool) b files ts f0 m f1 m1 (us : list uop),
+    (forall p, under (backup_dir b) p = true -> lookup f0 p = None) ->
+    Forall (fun f => under (backup_dir b) f = false) files ->
+    Forall valid_file files -> json_ok ts -> files <> [] ->
+    anc_ok f0 files ->
+    mgr_get m b = None ->
+    create_backup fixed m f0 files b ts = (f1, m1, Ok true) ->
+    Forall (fun u => under (backup_dir b) (utarget u) = false) us ->
+    Forall (harmless files) us ->
+    exists f3,
+      restore_backup m1 (fold_left (fun f u => uapply u f) us f1) b [] = (f3, Ok tt) /\
+      forall f, In f files -> exists c, read f0 f = Some c /\ read f3 f = Some c.
+Proof. exact restore_total_lemma. Qed.
+Print Assumptions C18_restore_total.
+
+(* the premises of C18_restore_total hold on the concrete tree (one backed-up file
+   overwritten, one deleted) and the restore completes with the original bytes *)
+Example C18_restore_total_nonvacuous :
+  anc_ok ex_f0 ex_files /\ Forall (harmless ex_files) ex_us /\
+  Forall (fun u => under (backup_dir ex_b) (utarget u) = false) ex_us /\ ex_files <> [] /\
+  (let '(f1, m1, _) := create_backup true [] ex_f0 ex_files ex_b ex_ts in
+   let f3 := fst (restore_backup m1 (fold_left (fun f u => uapply u f) ex_us f1) ex_b []) in
+   snd (restore_backup m1 (fold_left (fun f u => uapply u f) ex_us f1) ex_b []) = Ok tt /\
+   read f3 [ex_sub; ex_a] = Some [1;2;3]%N /\ read f3 [ex_c] = Some [7]%N).
+Proof. exact ex_restore_total. Qed.
+
+(* The task filter looks at the BASE NAME of the file only: whether a recorded
+   file is selected does not depend on the backup's name or location (nor, the
+   model being relative to the data root, on the dataset directory or its
+   ancestors), so 'task_<name>' inside those names selects nothing. *)
+Theorem C18_task_filter_basename_only :
+  forall (b b' : name) (tasks : list str) (k : str),
+    key_path k <> [] ->
+    task_selected tasks (backup_root b ++ key_path k) = task_selected tasks [last (key_path k) []] /\
+    task_selected tasks (backup_root b ++ key_path k) = task_selected tasks (backup_root b' ++ key_path k).
+Proof. exact task_filter_basename_only. Qed.
+Print Assumptions C18_task_filter_basename_only.
 
 (* A completed restore (task-filtered or not, any manager record, ANY prior state
    of the data tree) leaves every selected recorded file with exactly the bytes of
@@ -136,7 +211,13 @@ Theorem C18_restore_tasks_touches_only :
 Proof. exact restore_touches_only_lemma. Qed.
 Print Assumptions C18_restore_tasks_touches_only.
 
-(* Never overwritten (the code after the fix: commit, [create_backup true]): for
+(* Never overwritten (the current code of /repo = after fix commit fb42f68,
+   [create_backup true]).  This first statement is the modelled guard read back (a
+   two-case unfolding of the definition): it documents the repaired behaviour and
+   is tied to the code by the correspondence run (stale-manager and alias
+   histories, crash-then-create retries); the statements with content of their
+   own are C18_never_overwritten_listed / _alias and C18_crash_then_create(_alias)
+   below.  For
    ANY manager object -- fresh, or constructed before the backup existed -- and
    ANY file system in which backups/<name> exists on disk, create_backup returns
    False and performs no effect at all. *)
@@ -196,7 +277,7 @@ Proof. exact crash_then_create_alias. Qed.
 Print Assumptions C18_crash_then_create_alias.
 
 (* A crash of create_backup followed by a later create_backup of the same name
-   (repaired code, any manager object, any new selection): either the crash
+   (current code, after fix commit fb42f68; any manager object, any new selection): either the crash
    happened before the first effect (the tree is the untouched initial one), or
    the later call refuses and changes nothing -- so the outcome stays the one
    C18_crash_consistent describes (raises / not listed / listed and complete);
@@ -210,8 +291,9 @@ Theorem C18_crash_then_create :
 Proof. exact crash_then_create_lemma. Qed.
 Print Assumptions C18_crash_then_create.
 
-(* RECORD OF THE REPAIRED DEFECT (C18-F1, code before the fix: commit,
-   [create_backup false]): the existence test was made against the manager's
+(* RECORD OF THE REPAIRED DEFECT C18-F1: behaviour BEFORE fix commit fb42f68
+   ([create_backup false]); NOT a statement about the current /repo, for which
+   C18_never_overwritten* above hold: the existence test was made against the manager's
    cached dictionary only, so a manager constructed before the backup existed
    copied the (modified) data files over the existing backup. *)
 Theorem C18_never_overwritten_stale_refuted :
@@ -266,14 +348,14 @@ Example C18_nonvacuous :
 Proof. exact ex_nonvacuous. Qed.
 
 (* "b1/" on the witness tree: refused by the code under test; a guard that does not
-   resolve the name (here: the pre-fix program) overwrites the backup *)
+   resolve the name (here: the program before fix commit fb42f68) overwrites the backup *)
 Example C18_alias_refused_witness :
   create_backup true [] ex_f2 ex_files ex_b_slash ex_ts = (ex_f2, [], Ok false) /\
   (exists f' m', create_backup false [] ex_f2 ex_files ex_b_slash ex_ts = (f', m', Ok true) /\
      read f' (get_backup_path ex_b [ex_sub; ex_a]) <> read ex_f2 (get_backup_path ex_b [ex_sub; ex_a])).
 Proof. exact ex_alias_refused. Qed.
 
-(* the repaired code refuses on the witness of C18-F1 *)
+(* the current code (after fix commit fb42f68) refuses on the witness of the repaired C18-F1 *)
 Example C18_fixed_refuses_witness :
   create_backup true [] ex_f2 ex_files ex_b ex_ts = (ex_f2, [], Ok false).
 Proof. exact ex_fixed_refuses. Qed.
